@@ -94,7 +94,8 @@ class VerticalOptimization(Spec):
         return [('result-length-is-one-entry-per-rule-(two-for-a-requantize)-plus-the-producer-rule', ln(h, T) == S.pos(S.n) + off),
                 ('producer-rule-first-iff-it-still-has-consumers', Implies(off == 1, items_r(h, T)[0] == S.P)),
                 ('entries-per-consumer-rule-in-order', ctx.forall(1, lambda j: Implies(And(0 <= j, j < S.n), S.entry_ok(h, T, j, off)))),
-                self.producer_consumers(ctx, h)] + self.frames(ctx, h)
+                self.producer_consumers(ctx, h),
+                ('result-is-a-new-list', And(T != NULL, Not(S.h0.alloc[T]), h.alloc[T]))] + self.frames(ctx, h)             # used by the composition contract (contracts/compose.py)
 
 def pos_lemmas():
     """pos(0) = 0, pos(i+1) = pos(i) + w(i), w(i) in {1, 2}   =>   pos(j) + w(j) <= pos(i) for j < i   (induction on i; base i = j + 1, step i -> i + 1)"""
@@ -175,4 +176,97 @@ class ProduceForVerticalOpt(Spec):
         S = self; h = p.heap; T = ret.term; n = If(S.depth > 1, S.ng, 0)
         return [('one-instruction-per-depth-1-group-(none-without-depth-1)', ln(h, T) == n),
                 ('each-instruction: transformation and parameters of the first enumerated member, tensor id and producer from the graph-info table', ctx.forall(1, lambda g: Implies(And(0 <= g, g < n), S.inst_ok(h, T, g)))),
-                ('each-instruction names the operator of every member of its group once, in enumeration order', S.ops_ok(ctx, h, T, n))]
+                ('each-instruction names the operator of every member of its group once, in enumeration order', S.ops_ok(ctx, h, T, n)),
+                # used by the composition contract (contracts/compose.py): what the caller may assume about identity and allocation of the result
+                ('result-list-instructions-and-their-consumer-lists-are-new-objects', And(T != NULL, Not(S.h0.alloc[T]), h.alloc[T], ctx.forall(1, lambda g: Implies(And(0 <= g, g < n),
+                    And(Not(S.h0.alloc[items_r(h, T)[g]]), h.alloc[items_r(h, T)[g]], h.load(items_r(h, T)[g], 'consumers') != NULL, Not(S.h0.alloc[h.load(items_r(h, T)[g], 'consumers')]), h.alloc[h.load(items_r(h, T)[g], 'consumers')],
+                        items_r(h, T)[g] != T, h.load(items_r(h, T)[g], 'consumers') != T)))))]
+
+
+# ================================================================================================= _produce_consumer_transformations_unavailable_for_vertical_opt
+class ProduceOther(Spec):
+    """_produce_consumer_transformations_unavailable_for_vertical_opt(consumer_group, param): SOUNDNESS of every emitted instruction (which groups are skipped is not stated):
+       every instruction of the result was built for ONE group G = consumer_group[d][g] with 2 <= d < len(consumer_group) from ONE enumeration L of G (ghost attribute `$enum` of the
+       instruction, set where the real code constructs it; ghost functions depth_of / group_of / index_of of the enumeration, set where the real code evaluates list(group)):
+         transformation = transformations[d - 1] of the member enumerated first (which HAS more than d - 1 transformations), parameters = that member's, tensor id / producer from the graph-info table,
+         consumers = a new list naming the operator of every member of G exactly once, in enumeration order.
+       The result and every instruction / consumer list in it are new objects; nothing that exists at entry is written.
+       Preconditions (from `_group_consumer_transformations`): every group at every depth >= 2 is a non-empty set of positions of param.consumers; the tensor is in the graph-info table."""
+    fields = dict(PFIELDS, **{'$enum': 'ref'}); consts = CONSTS
+    relaxed_first = True; refutable = False
+    def __init__(self):
+        self.invariants = {0: self.inv_depths, 1: self.inv_groups, 2: self.inv_members}
+        self.callees = {'qtyping.TransformationInst': self.construct}
+    def empty_list_kind(self, line): return 'ref' if getattr(self, '_first_list', True) and not setattr(self, '_first_list', False) else 'int'
+    def field_kind(self, node, kind):
+        import ast
+        if node.attr == 'consumers' and isinstance(node.value, ast.Name) and node.value.id == 'param': return 'list[ref]'
+        return None
+    def construct(self, E, p, a, kw, node):
+        """the constructor, plus the ghost attribute: which enumeration this instruction was built from"""
+        r = p.heap.new(p, 'TransformationInst')
+        for nme, v in zip(RULE_FIELDS, a): p.heap.store(r, nme, v.term)
+        p.heap.store(r, '$enum', p.env['op_list'].term); return V('ref', r)
+    def on_list_of_set(self, E, p, src, out):
+        S = self; p.pc += [S.GOF(out.term) == src.term, S.DOF(out.term) == p.env['transformation_idx'].term, S.GIX(out.term) == p.env['$i1'].term]
+    def bind(self, E, p):
+        h = p.heap; S = self; S._first_list = True
+        for nme in list(S.fields) + ['$len', '$items:int', '$items:ref', '$dkeys:str', '$dhas:str', '$dmap:str:ref', '$dhas:int']: h.arr(nme)
+        h0 = h.copy(); S.h0 = h0
+        S.self_ = z3.Const('self', Ref); S.CG = z3.Const('consumer_group', Ref); S.param = z3.Const('param', Ref)
+        p.env.update(self=V('ref', S.self_), consumer_group=V('list[list[set[int]]]', S.CG), param=V('ref', S.param))
+        S.table = h0.load(S.self_, '_tensor_name_to_graph_info'); S.name = h0.load(S.param, 'tensor_name'); S.info = h0.load(S.table, '$dmap:str:ref')[S.name]
+        S.PCs = h0.load(S.param, 'consumers'); S.npc = ln(h0, S.PCs); S.cons = lambda i: items_r(h0, S.PCs)[i]; S.ctr = lambda i: h0.load(S.cons(i), 'transformations')
+        S.depth = ln(h0, S.CG); S.GD = lambda d: items_r(h0, S.CG)[d]; S.ng = lambda d: ln(h0, S.GD(d)); S.grp = lambda d, g: items_r(h0, S.GD(d))[g]; S.hasG = lambda G: h0.load(G, '$dhas:int')
+        S.GOF = z3.Function('group_of_enumeration', Ref, Ref); S.DOF = z3.Function('depth_of_enumeration', Ref, I); S.GIX = z3.Function('index_of_enumeration', Ref, I); S.W = z3.Function('some_member_of_group', I, I, I)
+        objs = [S.self_, S.CG, S.param, S.table, S.PCs]
+        p.pc += [z3.Distinct(*objs)] + [x != NULL for x in objs] + [h0.alloc[x] for x in objs] + [S.depth >= 0, S.npc >= 0, h0.load(S.table, '$dhas:str')[S.name], S.info != NULL, h0.alloc[S.info]]
+        F = p.facts.append
+        F(Schematic(1, lambda d: Implies(And(2 <= d, d < S.depth), And(S.GD(d) != NULL, h0.alloc[S.GD(d)], S.ng(d) >= 0, S.GD(d) != S.CG, S.GD(d) != S.PCs)), 'req:depth-lists'))
+        F(Schematic(2, lambda d, g: Implies(And(2 <= d, d < S.depth, 0 <= g, g < S.ng(d)), And(S.grp(d, g) != NULL, h0.alloc[S.grp(d, g)], S.hasG(S.grp(d, g))[S.W(d, g)])), 'req:groups-are-non-empty-sets'))
+        F(Schematic(3, lambda d, g, x: Implies(And(2 <= d, d < S.depth, 0 <= g, g < S.ng(d), S.hasG(S.grp(d, g))[x]), And(0 <= x, x < S.npc)), 'req:members-are-positions-of-param.consumers'))
+        F(Schematic(1, lambda i: Implies(And(0 <= i, i < S.npc), And(S.cons(i) != NULL, h0.alloc[S.cons(i)], S.ctr(i) != NULL, h0.alloc[S.ctr(i)], ln(h0, S.ctr(i)) >= 0)), 'req:consumer-records'))
+    def bounds(self, E): return [self.depth, self.npc]
+    def may_write(self, E, p, ref, field): return z3.BoolVal(False)
+    def relevant(self, label): return ['req:', 'inv:', 'list', 'in-def']
+    def bounds_note(self): return 'lengths of the enumerations are not bounded in the refutation scope: bounded-scope models are candidates only'
+    # ---- what an emitted instruction looks like
+    def enum_ok(self, h, L):
+        S = self; d = S.DOF(L); g = S.GIX(L)
+        return And(L != NULL, Not(S.h0.alloc[L]), h.alloc[L], 2 <= d, d < S.depth, 0 <= g, g < S.ng(d), S.GOF(L) == S.grp(d, g), ln(h, L) >= 1, S.hasG(S.GOF(L))[items_i(h, L)[0]])
+    def inst_ok(self, h, o):
+        S = self; h0 = S.h0; L = h.load(o, '$enum'); d = S.DOF(L); first = items_i(h, L)[0]; oc = h.load(o, 'consumers')
+        return And(o != NULL, Not(h0.alloc[o]), h.alloc[o], S.enum_ok(h, L), d - 1 < ln(h0, S.ctr(first)), h.load(o, 'transformation') == items_i(h0, S.ctr(first))[d - 1], h.load(o, 'parameters') == h0.load(S.cons(first), 'parameters'),
+                   h.load(o, 'tensor_id') == h0.load(S.info, 'tensor_id'), h.load(o, 'producer') == h0.load(S.info, 'producer'), oc != NULL, Not(h0.alloc[oc]), h.alloc[oc], ln(h, oc) == ln(h, L), oc != L)
+    def ops_ok(self, ctx, h, T, upto, name):
+        S = self; h0 = S.h0
+        def body(k, j):
+            o = items_r(h, T)[k]; L = h.load(o, '$enum'); x = items_i(h, L)[j]
+            return Implies(And(0 <= k, k < upto, 0 <= j, j < ln(h, L)), And(S.hasG(S.GOF(L))[x], items_i(h, h.load(o, 'consumers'))[j] == h0.load(S.cons(x), 'subgraph_op_id')))
+        return ctx.forall(2, body, name)
+    def state(self, ctx, p):
+        S = self; h = p.heap; T = p.env['other_consumer_transformations'].term; n = ln(h, T)
+        return [('result-is-a-new-list', And(T != NULL, h.alloc[T], Not(S.h0.alloc[T]), n >= 0)),
+                ('every-instruction-was-built-for-one-group-from-one-enumeration', ctx.forall(1, lambda k: Implies(And(0 <= k, k < n), And(S.inst_ok(h, items_r(h, T)[k]), items_r(h, T)[k] != T, h.load(items_r(h, T)[k], 'consumers') != T, h.load(items_r(h, T)[k], '$enum') != T)), 'inv:insts')),
+                ('instruction-names-the-operator-of-every-member-in-enumeration-order', S.ops_ok(ctx, h, T, n, 'inv:ops')),
+                ('inputs-not-written', And(ln(h, S.CG) == S.depth, items_r(h, S.CG) == items_r(S.h0, S.CG), ln(h, S.PCs) == S.npc, items_r(h, S.PCs) == items_r(S.h0, S.PCs),
+                                           ctx.forall(1, lambda d: Implies(And(2 <= d, d < S.depth), And(ln(h, S.GD(d)) == S.ng(d), items_r(h, S.GD(d)) == items_r(S.h0, S.GD(d)), S.GD(d) != T)), 'inv:depth-lists-kept')))]
+    def inv_depths(self, E, ctx, p, pre, i): return [('depth-range', And(0 <= i, Implies(self.depth > 2, i <= self.depth - 2)))] + self.state(ctx, p)
+    def inv_groups(self, E, ctx, p, pre, g):
+        S = self; d = p.env['transformation_idx'].term
+        return [('group-range', And(0 <= g, g <= S.ng(d), 2 <= d, d < S.depth, d == pre.env['transformation_idx'].term)), self.at_depth(ctx, d)] + self.state(ctx, p)
+    def at_depth(self, ctx, d):
+        S = self; h0 = S.h0
+        return ('groups-of-this-depth-are-non-empty-sets-of-positions', And(ctx.forall(1, lambda g: Implies(And(0 <= g, g < S.ng(d)), And(S.grp(d, g) != NULL, h0.alloc[S.grp(d, g)], S.hasG(S.grp(d, g))[S.W(d, g)])), 'inv:groups-non-empty-at-this-depth'),
+                                                                             ctx.forall(2, lambda g, x: Implies(And(0 <= g, g < S.ng(d), S.hasG(S.grp(d, g))[x]), And(0 <= x, x < S.npc)), 'inv:members-in-range-at-this-depth')))
+    def inv_members(self, E, ctx, p, pre, k):
+        S = self; h = p.heap; L = p.env['op_list'].term; ol = p.env['op_idx_list'].term; d = p.env['transformation_idx'].term
+        return [('k-range', And(0 <= k, k <= ln(h, L), 2 <= d, d < S.depth, d == pre.env['transformation_idx'].term)),
+                self.at_depth(ctx, d), ('members-of-this-group-are-positions', ctx.forall(1, lambda x: Implies(S.hasG(S.GOF(L))[x], And(0 <= x, x < S.npc)), 'inv:members-of-this-group-in-range')),
+                ('enumeration-kept', And(L == pre.env['op_list'].term, ln(h, L) == ln(pre.heap, L), items_i(h, L) == items_i(pre.heap, L), S.enum_ok(h, L), S.DOF(L) == d)),
+                ('ops-so-far', And(ol == pre.env['op_idx_list'].term, ol != NULL, ol != L, h.alloc[ol], Not(S.h0.alloc[ol]), ln(h, ol) == k, ctx.forall(1, lambda j: Implies(And(0 <= j, j < k), items_i(h, ol)[j] == S.h0.load(S.cons(items_i(h, L)[j]), 'subgraph_op_id')), 'inv:ops-prefix')))] + self.state(ctx, p)
+    def ensures(self, E, ctx, p, ret):
+        S = self; h = p.heap; T = ret.term; n = ln(h, T)
+        return [('result-is-a-new-list', And(T != NULL, Not(S.h0.alloc[T]), h.alloc[T], n >= 0)),
+                ('every-instruction: one group of depth >= 2, transformation [depth - 1] and parameters of the member enumerated first, tensor id and producer from the graph-info table, new consumer list', ctx.forall(1, lambda k: Implies(And(0 <= k, k < n), S.inst_ok(h, items_r(h, T)[k])))),
+                ('every-instruction names the operator of every member of its group once, in enumeration order', S.ops_ok(ctx, h, T, n, None))]
